@@ -19,7 +19,17 @@ Families ==
   \cup { Case(GRange(1, n, MfF), GRange(n + 1, n + m, MgF)) : n \in 1..(L \div 2), m \in 1..(L \div 2) }   \* no overlap
   \cup { Case(ListOf({ i \in 1..n : i % 3 # 0 }, MfF), ListOf({ i \in 1..(n + m) : i % 2 = 0 }, MgF)) : n \in 1..L, m \in 0..3 } \* mixed with tail
 
-Cases == Families
+\* large genomes, around the sizes at which an implementation might switch formulas (the NEAT paper normalises by the
+\* genome size above 20 genes; this library never does): same shapes, fixed sizes, independent of L
+BigSizes == {19, 20, 21, 49, 50, 51, 100, 128}
+MfB == [n \in 1..300 |-> Mf(n)]
+MgB == [n \in 1..300 |-> Mg(n)]
+BigFamilies ==
+     { Case(GRange(1, n, MfB), GRange(k, n + d, MgB)) : n \in BigSizes, k \in {1, 3}, d \in {0, 4} }
+  \cup { Case(ListOf({ 2 * i : i \in 1..n }, MfB), ListOf({ 2 * i - 1 : i \in 1..(n + 1) }, MgB)) : n \in BigSizes }
+  \cup { Case(GRange(1, n, MfB), GRange(1, 0, MgB)) : n \in BigSizes }
+  \cup { Case(GRange(1, n, MfB), GRange(1, 2, MgB)) : n \in BigSizes }
+Cases == Families \cup BigFamilies
 ASSUME /\ ndJsonSerialize(IOEnv.OUT, SetToSeq(Cases))
        /\ PrintT(<<"cases", Cardinality(Cases)>>)
 VARIABLE x
